@@ -37,8 +37,11 @@ CHECKS = {
         text="Coq theorems for ALL attribute lists and both reverse settings: merge_attributes computes a short merge spec (stable "
              "de-duplication at the first position, class values joined by single spaces in written order, last value wins / first "
              "under reverseAttributes, flag rules); decision table of push_attribute over all configs, names, values and flags "
-             "(quotes, braces, boolean expansion/compaction, implied dropped, empty value = tabstop, name mapping); attribute-set "
-             "parsing round trip at token level (_partial: character level and shorthands by correspondence). Independent oracle "
+             "(quotes, braces, boolean expansion/compaction, implied dropped, empty value = tabstop, name mapping); CHARACTER level: for every "
+             "element written as name + #id/.class shorthands + [ ... ] sets (valueless, unquoted, quoted, {expr}, boolean `n.`, implied "
+             "`!n`) tokenize+parse+convert yields exactly the written mentions in order with value, type and flags, and the whole expand "
+             "pipeline prints `<name` + merged mentions through the output table + `>text</name>` (BEM off); flat statements at text "
+             "level. Not covered by a theorem: $ numbering/fields in values, bare quoted attributes, jsx `.{e}`. Independent oracle "
              "parses the tags of expand() output and applies the rules to the generated mentions.",
         technique="Coq proof by induction over attribute lists (merge loop vs spec) and case analysis of push_attribute + model/implementation correspondence (output string and full parse tree) and attribute oracle",
         ref="DESIGN.md §5 C03"),
@@ -46,8 +49,9 @@ CHECKS = {
         text="Coq theorems: text_literal for ALL brace-balanced payloads (tokenize+parse+convert of name{T} gives [unescape T]), "
              "placeholder totality, group brackets, wrap_plain for all trees and texts, wrap text on leaves and (partial: state-purity "
              "assumption, no nested repeaters) implicit-repeater wrap, text reaches the stream verbatim split only at CR/LF/CRLF, "
-             "children after text. Attribute-position compositions are partial (correspondence + oracle). Independent oracle over the "
-             "whole punctuation alphabet and wrap-line lists.",
+             "children after text; attribute values are the written text character for character (quoted, unquoted with balanced "
+             "parentheses, expression), a[b=(c)] end to end, text on elements with attributes through expand. Independent oracle over "
+             "the whole punctuation alphabet and wrap-line lists.",
         technique="Coq proof by induction over the payload (tokenizer literal scanner with brace depth) and over converted forests + model/implementation correspondence and payload oracle",
         ref="DESIGN.md §5 C04"),
     'C05': dict(
